@@ -190,10 +190,12 @@ func (g *G) CrewCase(profile string) CrewCase {
 			mid := g.PickS(crewIds...)
 			st := &StateD{Node: "listen", Bs: map[string]interface{}{"n": float64(100 + g.Intn(3))}}
 			mm := map[string]interface{}{"state": stateJSON(st)}
-			if !live[mid] {
+			if !live[mid] && g.P(1, 2) {
 				mm["spec"] = map[string]interface{}{"inline": InlineSpecJSON(c.Specs[g.PickS(names...)])}
 				live[mid] = true
 			}
+			// (otherwise the machine exists without a spec for now: a later spec-only update
+			// completes it, and from then on it is an ordinary machine like any other)
 			m = map[string]interface{}{"to": "captain", "update": map[string]interface{}{mid: mm}}
 		case 3: // replace the spec only
 			mid := g.PickS(crewIds...)
@@ -214,6 +216,14 @@ func (g *G) CrewCase(profile string) CrewCase {
 			m = map[string]interface{}{"d": 0.0, "to": g.Pick("nobody", map[string]interface{}{"x": 1.0}, 7.0, nil, true)}
 		case 9:
 			m = map[string]interface{}{"to": "timers", "x": 1.0}
+		case 10:
+			// a message of the last depth (no follow-ups) for everybody: every ordinary machine
+			// counts it once
+			if g.P(1, 2) {
+				m = map[string]interface{}{"d": 2.0, "tag": "all"}
+			} else {
+				m = map[string]interface{}{"d": 2.0, "to": "*"}
+			}
 		default:
 			m = map[string]interface{}{"d": float64(g.Intn(3)), "to": g.PickS(crewIds...)}
 		}
